@@ -19,6 +19,14 @@ CONFIG = {
                    "thorough": {"_evaluations": 5000000}},
         "assumptions": ASSUME_COMMON + [
             "resource blow-ups (memory, time within the work budget) are inconclusive, not violations",
-            "bounded progress: a case that does not return within 120 s when run alone counts as 'no return'"],
+            "bounded progress: a case that does not return within 120 s when run alone counts as 'no return'",
+            "stack exhaustion is judged on optimised builds (mon-chk / mon-rel), main thread and a default 2 MiB thread"],
+        "technique": "runtime monitoring: outcome capture (catch_unwind + panic hook), child-process exit status with a case journal for aborts, "
+                     "VM step-bound hook; overflow-checks build as integer sanitizer",
+        "level_text": "Every generated execution (exhaustive built-in sweep up to arity 2 over a boundary pool in variable and literal form, operators over the "
+                      "whole pool, every corpus prefix, mutated / random / grammar-derived sources with hostile bindings, nesting and length ladders in crash-isolated "
+                      "workers on 8 MiB and 2 MiB stacks) is observed to end in a value or an error; panics are caught and attributed, process deaths are attributed "
+                      "through the journal. Exploration, not proof: it says nothing about inputs that were not executed.",
+        "level_note": "trusts the harness's outcome capture and the driver's crash triage; optimised builds only; quadratic-time ladders capped at 8192 elements",
     },
 }
